@@ -304,3 +304,232 @@ class DetermineContractedAndTarget(Contract):
         else:
             out.append(("target-shape", False))
         return out
+
+
+# --- _group_objects: the limit on simultaneously contracted objects ---------------------
+# Abstraction: index tuples, occurrence tables and position sets are opaque; of a set of
+# positions only its cardinality is tracked.  Proved: every group that is stored (and
+# therefore every group that is returned) has at most `max_group_size` members, for any
+# number of objects and any number of growth steps.
+GK = "adcgen.generate_code.optimize_contractions:_group_objects"
+ASSUMPTIONS.append("_group_objects: position sets are abstracted by their cardinality; "
+                   "itertools.combinations(enumerate(x), 2) yields pairs ((p1, x[p1]), (p2, x[p2])) with p1 < p2")
+
+
+def _fresh_card(vc, name):
+    c = vc.fresh_int(name)
+    vc.assume(c >= 0)
+    return c
+
+
+def _objidx_symiter(ip, obj):
+    from pyvc.builtins import SymIter
+    return SymIter("objidx", obj, Sym(obj.f["n"]),
+                   lambda ip_, k: Struct("IdxTupleV", pos=term(k)))
+
+
+def _idxtuple_symiter(ip, obj):
+    from pyvc.builtins import SymIter
+    vc = ip.vc
+    return SymIter("idxtuple", obj, Sym(_fresh_card(vc, "rank")),
+                   lambda ip_, k: new_index(ip_.vc, "gidx"))
+
+
+def _pairs_symiter(ip, obj):
+    from pyvc.builtins import SymIter
+    vc = ip.vc
+    n = obj.f["n"]
+
+    def item(ip_, k):
+        p1, p2 = ip_.vc.fresh_int("pos1"), ip_.vc.fresh_int("pos2")
+        ip_.vc.assume(z3.And(0 <= p1, p1 < p2, p2 < n))
+        return ((Sym(p1), Struct("IdxTupleV", pos=p1)), (Sym(p2), Struct("IdxTupleV", pos=p2)))
+    return SymIter("pairs", obj, Sym(_fresh_card(vc, "npairs")), item)
+
+
+C.STRUCT_SYMITER["ObjIdxSeq"] = _objidx_symiter
+C.STRUCT_SYMITER["IdxTupleV"] = _idxtuple_symiter
+C.STRUCT_SYMITER["PairsV"] = _pairs_symiter
+C.STRUCT_LEN["ObjIdxSeq"] = lambda ip, v: Sym(v.f["n"])
+C.STRUCT_LEN["PosSet"] = lambda ip, v: Sym(v.f["card"])
+C.STRUCT_LEN["KeyV"] = lambda ip, v: Sym(v.f["card"])
+C.STRUCT_CONTAINS["OccMap"] = lambda ip, o, x: ip.vc.fresh_bool("seen")
+C.STRUCT_STORE["OccMap"] = lambda ip, obj, idx, v: None
+C.STRUCT_SUBSCRIPT["OccMap"] = lambda ip, obj, idx: Struct("PosListV")
+C.STRUCT_METHODS[("PosListV", "append")] = lambda ip, obj, args, kwargs: None
+C.STRUCT_TRUTH["ListSet"] = lambda ip, v: ip.vc.fresh_bool("nonempty")
+C.STRUCT_EQ["ListSet"] = lambda ip, a, b: (a.f["mem"] == b.f["mem"]) \
+    if isinstance(a, Struct) and isinstance(b, Struct) and a.cls == b.cls else (a is b)
+C.STRUCT_CONTAINS["GroupsV"] = lambda ip, o, x: ip.vc.fresh_bool("known_group")
+
+
+def _posset_eq(ip, a, b):
+    if not (isinstance(a, Struct) and isinstance(b, Struct) and a.cls == b.cls == "PosSet"):
+        return a is b
+    e = ip.vc.fresh_bool("same_positions")
+    ip.vc.assume(z3.Implies(e, a.f["card"] == b.f["card"]))
+    return e
+
+
+C.STRUCT_EQ["PosSet"] = _posset_eq
+
+
+def _groups_store(ip, obj, key, v):
+    vc = ip.vc
+    ok = isinstance(key, Struct) and key.cls == "KeyV"
+    vc.check("store#stored-group-has-at-most-max_group_size-objects",
+             (key.f["card"] <= term(obj.f["max"])) if ok else False)
+    return None
+
+
+C.STRUCT_STORE["GroupsV"] = _groups_store
+C.STRUCT_METHODS[("GroupsV", "keys")] = lambda ip, obj, args, kwargs: Struct("GroupKeysV", of=obj)
+
+
+def _groupkeys_iter(ip, v):
+    # one arbitrary stored group: its size bound is the store-time obligation
+    c = _fresh_card(ip.vc, "group_size")
+    ip.vc.assume(c <= term(v.f["of"].f["max"]))
+    return [Struct("KeyV", card=c)]
+
+
+C.STRUCT_ITER["GroupKeysV"] = _groupkeys_iter
+C.STRUCT_ITER["OuterV"] = lambda ip, v: [Struct("KeyV", card=z3.IntVal(2))]
+
+
+def _outer_append(ip, obj, args, kwargs):
+    ok = isinstance(args[0], tuple) and len(args[0]) == 2
+    ip.vc.check("append#outer-product-is-a-pair-of-objects", ok)
+    return None
+
+
+C.STRUCT_METHODS[("OuterV", "append")] = _outer_append
+
+
+def _positions_comp(ip, frame, node):
+    return Struct("PosSet", card=_fresh_card(ip.vc, "npos"))
+
+
+def _group_tuples_comp(ip, frame, node):
+    t = ip.vc.fresh("group_indices", TuplesSort)
+    return Struct("IdxTuples", t=t)
+
+
+def _model_combinations_pairs(prev):
+    def model(ip, args, kwargs):
+        from pyvc.builtins import EnumVal
+        v = args[0]
+        if isinstance(v, EnumVal) and isinstance(v.inner, Struct) and v.inner.cls == "ObjIdxSeq" \
+                and args[1] == 2:
+            return Struct("PairsV", n=v.inner.f["n"])
+        if prev is not None:
+            return prev(ip, args, kwargs)
+        raise Unsupported("itertools.combinations of this iterable")
+    return model
+
+
+C.EXTERNALS["itertools.combinations"] = _model_combinations_pairs(C.EXTERNALS.get("itertools.combinations"))
+C.SYMBOLIC_ITERABLES.add("PosSet")
+
+
+class _OccLoop(LoopContract):
+    """fills the occurrence table (abstracted)"""
+
+    def havoc(self, vc, frame, k, seq):
+        frame["idx_occurences"] = Struct("OccMap")
+        for nm in ("pos", "indices", "idx"):
+            frame.locals.pop(nm, None)
+
+
+class _OccInnerLoop(LoopContract):
+    def havoc(self, vc, frame, k, seq):
+        frame["idx_occurences"] = Struct("OccMap")
+        frame.locals.pop("idx", None)
+
+
+class _PairLoop(LoopContract):
+    def havoc(self, vc, frame, k, seq):
+        frame["groups"] = Struct("GroupsV", max=frame["max_group_size"])
+        frame["outer_products"] = Struct("OuterV")
+        for nm in ("pos1", "pos2", "indices1", "indices2", "contracted", "_", "positions", "key",
+                   "new_contracted", "new_positions"):
+            frame.locals.pop(nm, None)
+
+
+class _GrowLoop(LoopContract):
+    def havoc(self, vc, frame, k, seq):
+        frame["positions"] = Struct("PosSet", card=_fresh_card(vc, "npos"))
+        frame["contracted"] = Struct("ListSet", mem=vc.fresh("contracted", IdxSet))
+        for nm in ("new_contracted", "new_positions"):
+            frame.locals.pop(nm, None)
+
+    def invariant(self, vc, frame, k, seq):
+        p = frame["positions"]
+        ok = isinstance(p, Struct) and p.cls == "PosSet"
+        return [("current-group-is-within-the-limit",
+                 (p.f["card"] <= term(frame["max_group_size"])) if ok else False)]
+
+
+_orig_fresh = SplitContractedAndTarget.fresh_result
+
+
+def _split_fresh_result_any(self, vc, a):
+    ind = a["indices"]
+    if not (isinstance(ind, Struct) and ind.cls == "IdxTuples"):
+        # any collection of index tuples
+        a = dict(a, indices=Struct("IdxTuples", t=vc.fresh("indices", TuplesSort)))
+    return _orig_fresh(self, vc, a)
+
+
+SplitContractedAndTarget.fresh_result = _split_fresh_result_any
+
+
+@register
+class GroupObjects(Contract):
+    key = GK
+    props = ["C16"]
+    loops = {0: _OccLoop(), 1: _OccInnerLoop(), 2: _PairLoop(), 3: _GrowLoop()}
+    comprehensions = {"for pos in idx_occurences[idx]": _positions_comp,
+                      "obj_indices[pos] for pos in positions": _group_tuples_comp}
+
+    def setup(self, vc):
+        from pyvc.builtins import b_sorted, b_tuple
+        from pyvc.values import PyFunc
+
+        def sorted_model(ip, args, kwargs):
+            if args and isinstance(args[0], Struct) and args[0].cls == "PosSet":
+                return Struct("SortedPos", card=args[0].f["card"])
+            return b_sorted(ip, args, kwargs)
+
+        def tuple_model(ip, args, kwargs):
+            if args and isinstance(args[0], Struct) and args[0].cls == "SortedPos":
+                return Struct("KeyV", card=args[0].f["card"])
+            return b_tuple(ip, args, kwargs)
+        vc.ip.builtins = dict(vc.ip.builtins, sorted=PyFunc(sorted_model, "sorted"),
+                              tuple=PyFunc(tuple_model, "tuple"))
+        n = vc.fresh_int("n_objects")
+        vc.assume(n >= 0)
+        limited = vc.choose(2, "limit") == 1
+        mgs = Sym(vc.fresh_int("max_group_size")) if limited else None
+        return {"obj_indices": Struct("ObjIdxSeq", n=n),
+                "target_indices": Struct("IdxSetView", mem=vc.fresh("term_targets", IdxSet)),
+                "max_group_size": mgs}
+
+    def raises(self, vc, a):
+        n = a["obj_indices"].f["n"]
+        bad = n <= 1
+        if a["max_group_size"] is not None:
+            bad = z3.Or(bad, term(a["max_group_size"]) <= 1)
+        return [("AssertionError", bad)]
+
+    def post(self, vc, a, result):
+        if not isinstance(result, tuple):
+            return [("returns-a-tuple-of-groups", False)]
+        n = a["obj_indices"].f["n"]
+        limit = term(a["max_group_size"]) if a["max_group_size"] is not None else n
+        out = []
+        for g in result:
+            ok = isinstance(g, Struct) and g.cls == "KeyV"
+            out.append(("every-returned-group-obeys-the-limit-on-simultaneously-contracted-objects",
+                        (g.f["card"] <= limit) if ok else False))
+        return out
